@@ -190,6 +190,18 @@ fn subs(role: &Role, u1: &Uni, u2: &Uni, l: &Ledger) -> Vec<Sub> {
             for q in others(*p) {
                 must(pick(&u1.pos[q][*i]), format!("{noun}position {i} of U1 sibling pool {}", POOL_NAMES[q]));
             }
+            // never-funded positions (liquidity 0) of the same owner: of the sibling pools and of the U2 counterpart
+            let me = &u1.pos[*p][*i];
+            for (u, uname) in [(u1, "U1"), (u2, "U2")] {
+                for q in 0..u.pools.len() {
+                    if std::ptr::eq(u, u1) && q == *p {
+                        continue;
+                    }
+                    for e in u.empty[q].iter().filter(|e| e.lower == me.lower && e.upper == me.upper) {
+                        must(pick(e), format!("{noun}EMPTY position (same range) of {uname} pool {}", POOL_NAMES[q]));
+                    }
+                }
+            }
         }
         Role::Oracle(p) => {
             must(u2.pools[*p].oracle, "U2 counterpart oracle".into());
@@ -796,6 +808,21 @@ fn multis(c: &Case, u1: &Uni, u2: &Uni, l: &Ledger) -> Vec<Multi> {
                 what: format!("position {i} + its token account of U1 sibling pool {} (same owner, same range)", POOL_NAMES[q]),
                 expect: Expect::MustFail,
             });
+        }
+        // the same with positions that were never funded: a check that is only reached once a position holds liquidity is not a check
+        for (u, uname) in [(u1, "U1"), (u2, "U2")] {
+            for q in 0..u.pools.len() {
+                if std::ptr::eq(u, u1) && q == p {
+                    continue;
+                }
+                for e in u.empty[q].iter().filter(|e| same_range(me, e)) {
+                    out.push(Multi {
+                        repl: vec![(ip, e.addr), (it, e.token_account)],
+                        what: format!("EMPTY position + its token account of {uname} pool {} (same owner, same range, liquidity 0)", POOL_NAMES[q]),
+                        expect: Expect::MustFail,
+                    });
+                }
+            }
         }
         for j in (0..u1.pos[p].len()).filter(|j| *j != i) {
             let o = &u1.pos[p][j];
